@@ -225,6 +225,9 @@ namespace pika::execution::experimental {
                 while (current != nullptr)
                 {
                     void* next = current->next;
+#if defined(PIKA_VERIF)
+                    PIKA_VERIF_POINT(404, this, 0, 0);
+#endif
                     current->continuation();
                     current = static_cast<async_rw_mutex_operation_state_base*>(next);
                 }
@@ -572,6 +575,9 @@ namespace pika::execution::experimental {
                         // There is no previous state on the first access or the
                         // previous state has already been released. We can run
                         // the continuation immediately.
+#if defined(PIKA_VERIF)
+                        PIKA_VERIF_POINT(404, state.get(), 0, 0);
+#endif
                         continuation();
                     }
                 }
@@ -768,6 +774,9 @@ namespace pika::execution::experimental {
                         // There is no previous state on the first access or the
                         // previous state has already been released. We can run
                         // the continuation immediately.
+#if defined(PIKA_VERIF)
+                        PIKA_VERIF_POINT(404, state.get(), 0, 0);
+#endif
                         continuation();
                     }
                 }
